@@ -65,6 +65,9 @@ def _dtypes():
         d[f"uintbe{n}"] = _mk(f"uintbe{n}", "u", "uintbe", n, 1, "int", 0)
         d[f"intbe{n}"] = _mk(f"intbe{n}", "i", "intbe", n, 1, "int", 1)
     d["bool"] = _mk("bool", "u", "bool", 1, 1, "bool", 0)
+    d["u0"] = _mk("u0", "u", "uint", 0, 1, "int", 0)                 # zero-length dtypes: refused by Array
+    d["bin0"] = _mk("bin0", "raw", "bin", 0, 1, "other", 0)
+    d["bytes0"] = _mk("bytes0", "raw", "bytes", 0, 8, "other", 0)
     for n in (4, 8, 12):
         d[f"hex{n}"] = _mk(f"hex{n}", "raw", "hex", n, 1, "other", 0)
     for n in (1, 3, 8):
@@ -637,6 +640,8 @@ def promote_ref(a, b):
 class Ref:
     def __init__(self, dt, ini, trail):
         self.dt = dt
+        if dt.w == 0:
+            raise Bad("zero-length dtype")                             # an Array needs a non-zero item width
         if ini == "-":
             data = ""
         elif ini.startswith("L:"):
@@ -646,7 +651,7 @@ class Ref:
         else:
             data = unwire(ini[2:])
         self.load(data + (trail or ""))
-        self.flags = ["bytes_dtype"] if dt.mult != 1 else []           # which deviant regions the history enters
+        self.flags = []
 
     def load(self, data):
         w = self.dt.w
@@ -792,12 +797,16 @@ class Ref:
             d2, o2 = self.other(g[1], g[2], g[3])
             return "b:1" if (d2.key == dt.key and o2.lst == lst and o2.tr == self.tr) else "b:0"
         if op == "dtype":
+            if dt_of(g[1]).w == 0:
+                return "e"                      # refused, nothing changes
             data = self.data()
             self.dt = dt_of(g[1])
             self.load(data)
             return "-"
         if op == "astype":
             d2 = dt_of(g[1])
+            if d2.w == 0:
+                return "e"
             try:
                 return self.arr(d2, lst)
             except Bad:
@@ -940,7 +949,7 @@ def _run_ref(f):
     try:
         r = Ref(dt, f[3], _tr(f[4]))
     except Bad:
-        return None, [], (["bytes_dtype"] if dt.mult != 1 else []), True
+        return None, [], [], True
     toks = ["I|" + wire(r.data())]
     views = [(_vsstr(r.lst), len(r.lst), r.tr)]
     for o in f[5:]:
@@ -1003,7 +1012,8 @@ INT_TOKENS = [t for t, s in DT_STR.items() if dt_of(s).kind != "raw" and dt_of(s
 FLOAT_TOKENS = [t for t, s in DT_STR.items() if dt_of(s).rt == "float"]
 STR_TOKENS = [t for t, s in DT_STR.items() if dt_of(s).rt == "other" and dt_of(s).mult == 1]
 BYTES_TOKENS = [t for t, s in DT_STR.items() if dt_of(s).mult != 1]
-UNIT_TOKENS = list(DT_STR)          # every dtype, bytesN (8 bits per unit) included
+ZERO_TOKENS = ["u0", "bin0", "bytes0"]
+UNIT_TOKENS = [t for t in DT_STR if t not in ZERO_TOKENS]          # every dtype, bytesN (8 bits per unit) included
 IDX_TOKENS = ["u3", "i5", "u8", "hex4", ">H", "bool", "float16", "i1", "bin3", "<h", "e2m1mxfp", "u17", "bytes1", "bytes2"]
 
 
@@ -1384,6 +1394,12 @@ def gen(rng, tier):
         dt = D(tok)
         vals = rvals(dt, rng, 3)
         yield hist(dt, vals, rtrail(dt, rng, 0.5), [f"astype:{dt.s}", f"astype:{D('bin3').s if tok != 'bin3' else D('hex4').s}"])
+    for z in ZERO_TOKENS:                                             # a zero-length dtype is refused everywhere
+        yield hist(D(z), [], None, [], init="-")
+        yield hist(D(z), [], None, [], init="N:2")
+        for tok in ["u8", "bin3", "bytes1"]:
+            dt = D(tok)
+            yield hist(dt, rvals(dt, rng, 2), rtrail(dt, rng, 0.5), [f"dtype:{D(z).s}", "list", f"astype:{D(z).s}", "len"])
     # array.array input: int typecodes, native sizes
     for tc in "bBhHiIlLqQ":
         native = _array.array(tc).itemsize * 8
